@@ -74,8 +74,52 @@ struct tcp_run
 	std::int64_t steps = 0;
 	bool livelock = false;
 	std::shared_ptr<ctl_sink> ctl;
+	// fault injection (C04 / C12): at step-hook boundary fault_k apply fault_what to fault_obj
+	std::int64_t bcount = 0, fault_k = -1;
+	std::string fault_obj, fault_what;
+	struct thrown_by_fault {};
+
+	void apply_fault()
+	{
+		std::int64_t t = rec.sync();
+		if (fault_what == "throw")
+		{
+			json::object e; e["e"] = "Throw"; e["t"] = t; rec.emit(e);
+			throw thrown_by_fault();
+		}
+		if (accs.count(fault_obj))
+		{
+			if (!accs[fault_obj]) return;
+			json::object e; e["e"] = fault_what == "cancel" ? "CancelAcc" : "CloseAcc"; e["l"] = fault_obj; e["t"] = t; e["how"] = fault_what;
+			rec.emit(e);
+			error_code ec;
+			in_api = true;
+			if (fault_what == "cancel") accs[fault_obj]->cancel(ec);
+			else if (fault_what == "close") accs[fault_obj]->close(ec);
+			else accs[fault_obj].reset();
+			in_api = false;
+			return;
+		}
+		auto it = sides.find(fault_obj);
+		if (it == sides.end() || !it->second.sock) return;
+		side& sd = it->second;
+		// only the object an operation is outstanding ON is a legitimate target: a connector once its
+		// connect was issued, an accepted socket once the accept completed (before that it is an object
+		// the accept merely refers to, which the caller must keep alive and untouched)
+		if (sd.role == "c" ? sd.conn == 0 : !sd.connected) return;
+		if (fault_what == "close") { do_close(sd); return; }
+		json::object e; e["e"] = fault_what == "cancel" ? "Cancel" : "Close"; e["s"] = sd.name; e["conn"] = sd.conn; e["role"] = sd.role;
+		e["t"] = t; e["how"] = fault_what;
+		rec.emit(e);
+		++sd.gen; sd.writing = sd.reading = false; sd.r.stop = true; sd.w.bytes = sd.wpos;
+		in_api = true;
+		if (fault_what == "cancel") { error_code ec; sd.sock->cancel(ec); }
+		else { sd.closed = true; sd.connected = false; socks[sd.name].reset(); sd.sock = nullptr; }
+		in_api = false;
+	}
 
 	explicit tcp_run(recorder& r) : rec(r) {}
+	std::int64_t boundaries = 0;
 
 	static std::uint32_t dig(std::vector<std::uint8_t> const& b)
 	{
@@ -188,7 +232,7 @@ struct tcp_run
 
 	void start_write(side& s)
 	{
-		if (s.writing || s.closed || !s.connected || s.wpos >= s.w.bytes) { maybe_close(s); return; }
+		if (!s.sock || s.writing || s.closed || !s.connected || s.wpos >= s.w.bytes) { maybe_close(s); return; }
 		std::int64_t want = std::min<std::int64_t>(s.w.sizes[s.wi++ % s.w.sizes.size()], s.w.bytes - s.wpos);
 		if (want <= 0) want = 1;
 		std::uint32_t sid = sid_of(s.conn, s.role == "c" ? "c2a" : "a2c");
@@ -263,7 +307,7 @@ struct tcp_run
 
 	void start_read(side& s)
 	{
-		if (s.reading || s.closed || s.eof || !s.connected || s.r.stop) return;
+		if (!s.sock || s.reading || s.closed || s.eof || !s.connected || s.r.stop) return;
 		int cap = s.r.caps[s.ri++ % s.r.caps.size()];
 		std::int64_t h = next_h++;
 		std::int64_t t = rec.sync();
@@ -299,7 +343,7 @@ struct tcp_run
 				side& sd = sides[name];
 				std::int64_t t2 = rec.sync();
 				{ json::object e; e["e"] = "Ready"; e["s"] = name; e["conn"] = sd.conn; e["role"] = sd.role; e["h"] = h; e["ec"] = ec_name(ec); e["inline"] = in_api; e["t"] = t2; e["stale"] = gen != sd.gen; rec.emit(e); }
-				if (gen != sd.gen) return;
+				if (gen != sd.gen || !sd.sock) return;
 				sd.reading = false;
 				if (ec && ec != boost::asio::error::eof) return;
 				auto b = mk();
@@ -325,6 +369,7 @@ struct tcp_run
 
 	void do_connect(conn_info const& ci, std::string const& ta, int tp, int bind_port, std::string const& bind_addr)
 	{
+		if (!socks[ci.c]) return;
 		side& s = sides[ci.c];
 		tcp::socket& so = *socks[ci.c];
 		error_code ec;
@@ -353,7 +398,8 @@ struct tcp_run
 			std::int64_t t2 = rec.sync();
 			json::object e; e["e"] = "ConnectDone"; e["c"] = name; e["conn"] = cid; e["h"] = h; e["ec"] = ec_name(e2);
 			e["inline"] = in_api; e["t"] = t2; e["stale"] = gen != sd.gen;
-			e["lep"] = ep_or_err(*sd.sock, false); e["rep"] = ep_or_err(*sd.sock, true);
+			if (sd.sock) { e["lep"] = ep_or_err(*sd.sock, false); e["rep"] = ep_or_err(*sd.sock, true); }
+			else { e["lep"] = json::array(); e["rep"] = json::array(); }
 			rec.emit(e);
 			if (gen != sd.gen || e2) return;
 			connected(sd);
@@ -363,6 +409,7 @@ struct tcp_run
 
 	void do_accept(conn_info const& ci)
 	{
+		if (!accs[ci.l] || !socks[ci.into] || !accs[ci.l]->is_open()) { accept_busy[ci.l] = false; return; }
 		tcp::acceptor& l = *accs[ci.l];
 		std::int64_t h = next_h++;
 		std::string into = ci.into, lname = ci.l; int cid = ci.id; int form = ci.form;
@@ -373,8 +420,8 @@ struct tcp_run
 			std::int64_t t2 = rec.sync();
 			json::object e; e["e"] = "AcceptDone"; e["l"] = lname; e["into"] = into; e["h"] = h; e["ec"] = ec_name(ec);
 			e["form"] = form; e["inline"] = in_api; e["t"] = t2;
-			tcp::socket& so = *socks[into];
-			e["lep"] = ep_or_err(so, false); e["rep"] = ep_or_err(so, true);
+			if (socks[into]) { tcp::socket& so = *socks[into]; e["lep"] = ep_or_err(so, false); e["rep"] = ep_or_err(so, true); }
+			else { e["lep"] = json::array(); e["rep"] = json::array(); }
 			if (have_peer && !ec) e["peer"] = ep_json(w, peer_eps[into]); else e["peer"] = json::array();
 			// which connection is this? by the accepted socket's view of the connector (real endpoint via channel is not visible): use rep
 			rec.emit(e);
@@ -408,7 +455,7 @@ struct tcp_run
 	void after_accept(std::string const& into, error_code const& ec)
 	{
 		for (auto const& c : conns) if (c.second.into == into) next_accept(c.second.l);
-		if (ec) return;
+		if (ec || !socks[into]) return;
 		side& s = sides[into];
 		// the plan (what to write/read) was stored with the accept; the actual connection id is
 		// determined by the trace spec from the SYN order.  The harness needs it for the stream ids:
@@ -490,9 +537,16 @@ struct tcp_run
 			c["nat"] = nat;
 			rec.emit(c);
 		}
+		if (prog.find("fault") != prog.end())
+		{
+			json::object const& f = prog.at("fault").as_object();
+			fault_k = geti(f, "k"); fault_obj = gets(f, "obj"); fault_what = gets(f, "what");
+		}
 		sim->verif_step_hook = [this](int kind) {
-			if (kind != 1 && ++steps > 3000000 && !livelock)
+			if (kind == 1) return;
+			if (++steps > 3000000 && !livelock)
 			{ livelock = true; rec.line("{\"e\":\"Livelock\"}"); throw livelock_error(); }
+			if (++bcount == fault_k) apply_fault();
 		};
 		// acceptors
 		for (auto const& kv : prog.at("acceptors").as_object())
@@ -506,6 +560,7 @@ struct tcp_run
 			std::int64_t ct = geti(a, "close_at", -1);
 			at(lt, [this, name, addr, port]() {
 				error_code ec;
+				if (!accs[name]) return;
 				tcp::acceptor& l = *accs[name];
 				l.open(tcp::v4(), ec);
 				l.bind(tcp::endpoint(w.real_addr(addr), std::uint16_t(port)), ec);
@@ -517,6 +572,7 @@ struct tcp_run
 			});
 			if (ct >= 0) at(ct, [this, name]() {
 				std::int64_t t = rec.sync();
+				if (!accs[name]) return;
 				json::object e; e["e"] = "CloseAcc"; e["l"] = name; e["t"] = t; rec.emit(e);
 				error_code ec; accs[name]->close(ec);
 			});
@@ -562,7 +618,8 @@ struct tcp_run
 				at(close_at, [this, who]() { do_close(sides[who]); });
 			}
 		}
-		try { sim->run(); } catch (livelock_error const&) {}
+		bool thrown = false;
+		try { sim->run(); } catch (livelock_error const&) {} catch (thrown_by_fault const&) { thrown = true; }
 		rec.sync();
 		// what the harness knows at quiescence: which operations are still pending
 		for (auto const& kv : sides)
@@ -578,7 +635,9 @@ struct tcp_run
 		// such runs end with EndLoose, for which the stall conditions are not required
 		bool injected_drops = false;
 		for (auto const& r : rules) if (r.drop) injected_drops = true;
-		rec.line(livelock ? "{\"e\":\"Abandon\"}" : injected_drops ? "{\"e\":\"EndLoose\"}" : "{\"e\":\"End\"}");
+		rec.line(livelock ? "{\"e\":\"Abandon\"}" : thrown ? "{\"e\":\"EndThrown\"}"
+			: injected_drops ? "{\"e\":\"EndLoose\"}" : "{\"e\":\"End\"}");
+		boundaries = bcount;
 		sim->verif_step_hook = nullptr;
 		timers.clear();
 		socks.clear();
@@ -624,7 +683,7 @@ int record_tcp(int argc, char** argv)
 	if (argc < 2) { std::fprintf(stderr, "usage: record-tcp <programs.ndjson> [skip] [seed]\n"); return 2; }
 	std::size_t skip = argc > 2 ? std::strtoull(argv[2], nullptr, 10) : 0;
 	std::string tpath = std::string(argv[1]) + ".trace";
-	std::FILE* tf = std::fopen(tpath.c_str(), skip ? "a" : "w");
+	std::FILE* tf = open_trace(tpath, skip);
 	if (!tf) { std::perror(tpath.c_str()); return 2; }
 	recorder rec(tf);
 	int rc = for_each_behaviour(argv[1], skip, [&](std::size_t, json::value const& v) {
@@ -634,6 +693,7 @@ int record_tcp(int argc, char** argv)
 		std::fflush(tf);
 		result res;
 		res.extra["events"] = rec.events - before;
+		res.extra["boundaries"] = r.boundaries;
 		if (r.livelock) res.fail(-1, "livelock", "step budget exceeded");
 		return res;
 	});
